@@ -3,15 +3,32 @@
 (* the first order starting with s1 to halve the count) x every replicator      *)
 (* count in -1..5.  The block hashes are chosen by the driver (seeded), half of *)
 (* them searched so that the scores tie at the cut.                             *)
+(* Kind "replh" (pool history, Rank.tla actions ShareOther / ReAdd2): the first  *)
+(* node adds k sharders in name order; the second node adds them in the order    *)
+(* o2, then adds the sharders ob - the SAME node objects - to the sharder pool   *)
+(* of another magic block (every non-empty subset), then is told about one known *)
+(* sharder again (re: a = sharder, d = 1 with a fresh node object, 0 the same).  *)
+(* The replicator counts n10s are observed on the pools built once.              *)
+(* -depth 1 (quick): o2 starts with the last name; -depth 2 (thorough): every o2 *)
+(* and counts -1..5.                                                              *)
 EXTENDS Integers, Sequences, FiniteSets, TLC, Json
 VARIABLE g
 Names == <<"s1", "s2", "s3", "s4">>
 Orders(k) == {f \in [1..k -> {Names[i] : i \in 1..k}] : \A i, j \in 1..k : i # j => f[i] # f[j]}
 P(x) == PrintT(<<"BEHAVIOUR", ToJson(x)>>)
 \* negative numbers are printed as n + 10 (n10), the driver subtracts
+L == TLCGet("config").depth
+First(k) == SubSeq(Names, 1, k)
+AsSeq(S, k) == SelectSeq(First(k), LAMBDA x : x \in S)
+HistCounts == IF L >= 2 THEN <<9, 10, 11, 12, 13, 14, 15>> ELSE <<10, 11, 12, 13, 15>>
 Printed ==
-  \A k \in 1..4 : \A o1 \in Orders(k) : \A o2 \in Orders(k) : \A n \in -1..5 :
-     (o1[1] = Names[1]) => P([k |-> "repl", n10 |-> n + 10, o1 |-> o1, o2 |-> o2])
+  /\ \A k \in 1..4 : \A o1 \in Orders(k) : \A o2 \in Orders(k) : \A n \in -1..5 :
+        (o1[1] = Names[1]) => P([k |-> "repl", n10 |-> n + 10, o1 |-> o1, o2 |-> o2])
+  /\ \A k \in 2..4 : \A o2 \in Orders(k) : \A S \in (SUBSET {Names[i] : i \in 1..k}) \ {{}} :
+        \A m \in 1..k : \A f \in {0, 1} :
+          (L >= 2 \/ o2[1] = Names[k]) =>
+             P([k |-> "replh", n10s |-> HistCounts, o1 |-> First(k), o2 |-> o2,
+                ob |-> AsSeq(S, k), re |-> << [a |-> Names[m], d |-> f] >>])
 GInit == g = IF Printed THEN 0 ELSE 1
 GNext == UNCHANGED g
 GSpec == GInit /\ [][GNext]_g
